@@ -605,3 +605,30 @@ class FloodFillOneApplication:
                 and _trace[5][0] == "read_struct_field"
                 and _trace[6][0] == "ffd" and _trace[6][1] == pid and _trace[6][2] == g_binary and _trace[6][3] == g_base
                 and _trace[7] == ("ffe", pid, app_id, flags, fr))
+
+
+# ---- count_cores_in_state given SEVERAL states: one count per state, each for the caller's application, summed -----------------------
+def _ccs_rec(E, obj, args, kwargs, st, node):
+    s = st.copy()
+    n = len(s.trace.items)
+    s.trace = ListV(s.trace.items + (("count",) + tuple(args) + tuple(sorted(kwargs.items())),))
+    return [(s, st.env["g_counts"][n], None)]
+
+
+@contract("rig/machine_control/machine_controller.py::MachineController.count_cores_in_state", variant="several_states")
+class CountCoresInSeveralStates:
+    """(states given as a sequence) every state is counted once, in order, for the SAME application the call was made for - not for
+    whatever the enclosing context says - and the counts are added up"""
+    properties = ("C09", "C18")
+    params = dict(self=TRec("MachineController"), state=TTuple(TInt(0, 15), TInt(0, 15), TInt(0, 15)), app_id=TInt(0, 255),
+                  g_counts=TTuple(TInt(0, 2 ** 32 - 1), TInt(0, 2 ** 32 - 1), TInt(0, 2 ** 32 - 1)))
+    externals = {"MachineController.count_cores_in_state": _ccs_rec}
+    options = {"decorators": {"use_contextual_arguments": "identity"}, "int_class": "rig/machine_control/consts.py::AppState"}
+    assumptions = ["the recursive calls (contract CountCoresInState, the single-state form) are recorded and return ghost counts"]
+
+    def native(state):
+        raise __import__("pyvc.replay", fromlist=["OutsideHarness"]).OutsideHarness()
+
+    def ensures_each_state_counted_once_for_this_application_and_summed(state, app_id, g_counts, result, _trace):
+        return (len(_trace) == 3 and all(_trace[i] == ("count", state[i], app_id) for i in range(3))
+                and result == g_counts[0] + g_counts[1] + g_counts[2])
